@@ -401,6 +401,10 @@ if PROP == "C16":
             return jj if form == "single" else ((jj, gg) if form == "tuple" else (jj, gg, nxt))
         leg.case(("hook-redirect", form), True)
         st = stackscope.extract(r)
+        fo_r = stackscope.extract_outermost(r)
+        if st.frames and fo_r != st.frames[0]:
+            leg.violation(("hook-redirect", form, "outermost"), f"extract_outermost(x) differs from extract(x).frames[0] for an outermost frame whose hook redirects: "
+                                                               f"hide={fo_r.hide}/{st.frames[0].hide} hide_line={fo_r.hide_line}/{st.frames[0].hide_line}")
         want = {"job": j, "job_leaf": None, "gen_job": g} if form != "single" else {"job": j, "job_leaf": None}
         by = {f.funcname: f for f in st.frames}
         if st.error is not None or not set(want) <= set(by):
